@@ -275,6 +275,61 @@ pub fn run(a: &Args) -> i32 {
             }
         }
     }
+    // ---- one long-lived Game asked for its move at every ply of every quiet king path ----
+    let mut path_asks = 0u64;
+    {
+        let root = Pos::from_fen("7k/8/8/8/8/8/8/K7 w - - 0 1").unwrap();
+        let allowed: Vec<Sq> = ["a1", "b1", "b2", "a2", "h8", "g8", "g7", "h7"].iter().map(|x| parse_sq(x).unwrap()).collect();
+        let len = if thorough { 6 } else { 5 };
+        let mut paths: Vec<Vec<Move>> = vec![vec![]];
+        for _ in 0..len {
+            let mut next = Vec::new();
+            for h in &paths {
+                let mut p = root.clone();
+                for m in h {
+                    p = p.make(m);
+                }
+                for m in p.legal_moves().into_iter().filter(|m| allowed.contains(&m.from) && allowed.contains(&m.to)) {
+                    let mut t = h.clone();
+                    t.push(m);
+                    next.push(t);
+                }
+            }
+            paths = next;
+        }
+        for d in [1u8, 2] {
+            for h in paths.iter().step_by(if thorough { 1 } else { 2 }) {
+                let mut g = Game::from_board(build_board(&root), d);
+                let mut p = root.clone();
+                let mut played: Vec<(Sq, Sq)> = Vec::new();
+                for k in 0..=h.len() {
+                    path_asks += 1;
+                    let ql = p.legal_moves();
+                    match ask(&mut g) {
+                        Ok(m) if ql.iter().any(|x| describe_model(x) == m) => {
+                            outcomes.insert(m);
+                        }
+                        other => {
+                            sink.push(Violation { prop: "C15".into(), class: "no-legal-move-from-long-lived-game".into(), seed: root.to_fen(), path: text(&played), detail: format!("one Game asked for its move before every ply of {:?}; in {} it answers {:?}", text(&played), p.to_fen(), other.map(|m| desc_str(&m))), extra: json!({"kind": "c15-path", "fen": root.to_fen(), "history": text(&played), "depth": d}) });
+                            break;
+                        }
+                    }
+                    if k == h.len() {
+                        break;
+                    }
+                    let m = &h[k];
+                    match guarded(|| g.apply_chess_move_by_from_to_coordinates(bb(m.from), bb(m.to))) {
+                        Ok(Ok(_)) => {}
+                        _ => break,
+                    }
+                    g.board_mut().toggle_turn();
+                    p = p.make(m);
+                    played.push((m.from, m.to));
+                }
+            }
+        }
+    }
+    rep.add("asks_along_long_lived_game_paths", path_asks);
     rep.add("supplied_position_asks", sup_asks);
     rep.add("supplied_positions", supplied.len() as u64);
     rep.add("answers_taken_from_the_book", book_answers);
@@ -282,7 +337,7 @@ pub fn run(a: &Args) -> i32 {
     rep.add("distinct_moves_proposed", outcomes.len() as u64);
     rep.states = nodes.len() as u64 + dep + supplied.len() as u64;
     rep.transitions = edges + asks + dep + sup_asks;
-    rep.traces = asks + dep + sup_asks;
+    rep.traces = asks + dep + sup_asks + path_asks;
     rep.samples = vec![
         json!({"book_node_example": nodes.iter().rev().find(|n| n.prefix.len() >= 4).map(|n| json!({"prefix": text(&n.prefix), "position": n.pos.to_fen(), "next": n.next.iter().map(|(f, t, nm)| json!([format!("{}{}", sq_name(*f), sq_name(*t)), nm])).collect::<Vec<_>>()}))}),
         json!({"supplied_example": supplied.last().map(|(n, p)| json!({"name": n, "fen": p.to_fen()}))}),
@@ -316,6 +371,44 @@ pub fn replay(v: &serde_json::Value) -> i32 {
             let legal = p.legal_moves().iter().any(|m| format!("{}{}", sq_name(m.from), sq_name(m.to)) == mv);
             if in_book && !legal {
                 println!("REPRODUCED property=C15 class=book-line-illegal {} after {:?}", mv, text(&prefix));
+                1
+            } else {
+                println!("NOT-REPRODUCED property=C15");
+                0
+            }
+        }
+        "c15-path" => {
+            let root = Pos::from_fen(v["extra"]["fen"].as_str().unwrap_or("")).unwrap();
+            let hist = strs(&v["extra"]["history"]);
+            let d = v["extra"]["depth"].as_u64().unwrap_or(1) as u8;
+            let run = || -> bool {
+                let mut g = Game::from_board(build_board(&root), d);
+                let mut p = root.clone();
+                for k in 0..=hist.len() {
+                    let ok = matches!(ask(&mut g), Ok(m) if p.legal_moves().iter().any(|x| describe_model(x) == m));
+                    if !ok {
+                        return true;
+                    }
+                    if k == hist.len() {
+                        break;
+                    }
+                    let (f, t) = hist[k];
+                    if !matches!(guarded(|| g.apply_chess_move_by_from_to_coordinates(bb(f), bb(t))), Ok(Ok(_))) {
+                        return true;
+                    }
+                    g.board_mut().toggle_turn();
+                    let m = p.legal_moves().into_iter().find(|m| m.from == f && m.to == t).unwrap();
+                    p = p.make(&m);
+                }
+                false
+            };
+            let (a, b) = (run(), run());
+            if a != b {
+                eprintln!("MACHINERY-ERROR: replay is not deterministic");
+                return 2;
+            }
+            if a {
+                println!("REPRODUCED property=C15 class=no-legal-move-from-long-lived-game");
                 1
             } else {
                 println!("NOT-REPRODUCED property=C15");
